@@ -23,7 +23,14 @@
 //!           `other:<kind>`; a suffix `|render=<text>` is added when rendering `{{ expr }}` does
 //!           not print the same integer/bool (or fails differently) as `Expression::eval`.
 //!
+//! round 5: `div` (true division), float operands of `add sub mul pow`, `bool:` operands everywhere,
+//!           `f_roundp A P`, `t_odd/t_even/t_divby` on floats, `f_strint/f_strfloat str:<hex>`,
+//!           `nest:<op1>,<op2> A B C` = `(A op1 B) op2 C` (suffix `|stepwise=` when evaluating the inner
+//!           operator first gives something else), suffix `|via=` when a filter / test applied by name
+//!           through map / select disagrees with the direct form
+//!
 //! usage: c08 gen <quick|thorough>    print all case lines with results
+//!        c08 cases <quick|thorough>  print the case lines only (the check shards them over `run`)
 //!        c08 one <op> <A> [<B>]      run one case (replay)
 //!        c08 run                     read case lines from stdin, print with results
 use minijinja::value::{Serde, Value};
@@ -171,7 +178,7 @@ fn operand(tok: &str, name: &str) -> Opd {
 
 fn op_src(op: &str) -> &'static str {
     match op {
-        "add" => "+", "sub" => "-", "mul" => "*", "fdiv" => "//", "rem" => "%", "pow" => "**",
+        "add" => "+", "sub" => "-", "mul" => "*", "fdiv" => "//", "rem" => "%", "pow" => "**", "div" => "/",
         "lt" => "<", "le" => "<=", "gt" => ">", "ge" => ">=", "eq" => "==", "ne" => "!=",
         _ => panic!("bad op {op}"),
     }
@@ -215,6 +222,10 @@ fn expr_of(op: &str, t: &[&str]) -> String {
         // the conjunction of the links of the chain, each link a two-operand comparison
         let ops: Vec<&str> = ops.split(',').collect();
         return chain_links(&ops, t).iter().map(|(l, o, r)| format!("(({}) {} ({}))", l, o, r)).collect::<Vec<_>>().join(" and ");
+    }
+    if let Some(ops) = op.strip_prefix("nest:") {
+        let (o1, o2) = ops.split_once(',').expect("nest needs two operators");
+        return format!("({} {} {}) {} {}", a, op_src(o1), b, op_src(o2), t[2]);
     }
     if let Some(name) = op.strip_prefix("is:") {
         return format!("{} is {}({})", a, name, b);
@@ -304,6 +315,7 @@ struct Envs {
     plain: Environment<'static>,
     custom: Environment<'static>,
     strict: Environment<'static>,
+    fueled: Environment<'static>,
 }
 
 fn make_envs() -> Envs {
@@ -324,10 +336,13 @@ fn make_envs() -> Envs {
     minijinja_contrib::add_to_environment(&mut strict);
     strict.set_undefined_behavior(minijinja::UndefinedBehavior::Strict);
     strict.set_debug(false);
-    Envs { plain, custom, strict }
+    let mut fueled = Environment::new();
+    minijinja_contrib::add_to_environment(&mut fueled);
+    fueled.set_fuel(Some(1_000_000));
+    Envs { plain, custom, strict, fueled }
 }
 
-const N_EMBED: u64 = 11;
+const N_EMBED: u64 = 18;
 
 /// render the case through another feature / entry point; the printed text must be what
 /// `Expression::eval` displays
@@ -377,6 +392,13 @@ fn run_embedding(envs: &Envs, k: u64, op: &str, opds: &[Opd], ctx: &Value) -> Re
             env.get_template("page.txt")?.render_captured_to(ctx.clone(), &mut out)?;
             Ok(String::from_utf8(out).unwrap())
         }
+        11 => envs.plain.render_str(&format!("{{{{ ({}) if true else 0 }}}}", expr), ctx),
+        12 => envs.plain.render_str(&format!("{{% with x = {} %}}{{{{ x }}}}{{% endwith %}}", expr), ctx),
+        13 => envs.plain.render_str(&format!("{{{{ [0, {}][1] }}}}", expr), ctx),
+        14 => envs.plain.render_str(&format!("{{{{ {{'k': {}}}['k'] }}}}", expr), ctx),
+        15 => envs.plain.render_str(&format!("{{{{ nosuchvariable|default({}) }}}}", expr), ctx),
+        17 => envs.fueled.render_str(&format!("{{{{ {} }}}}", expr), ctx),
+        16 => envs.plain.render_str(&format!("{{% for i in range(1) %}}{{% if true %}}{{{{ dict(k={}).k }}}}{{% endif %}}{{% endfor %}}", expr), ctx),
         _ => {
             // `State::call_macro` with the operands as argument values
             let body = expr_of(op, &PARAMS[..srcs.len()]);
@@ -470,6 +492,38 @@ fn run_case(envs: &Envs, fields: &[&str]) -> String {
             if conj_rt != res {
                 out.push_str(&format!("|conjrt={}", conj_rt));
             }
+        }
+    }
+    // filters and tests applied by name through map / select must give what the direct form gives
+    let via = match op {
+        "f_abs" | "f_int" | "f_float" | "f_round" => Some(format!("[{}]|map('{}')|first", srcs[0], &op[2..])),
+        "t_odd" | "t_even" => Some(format!("[{}]|select('{}')|list|length == 1", srcs[0], &op[2..])),
+        "t_divby" => Some(format!("[{}]|select('divisibleby', {})|list|length == 1", srcs[0], srcs[1])),
+        _ => None,
+    };
+    if let Some(vsrc) = via {
+        let (v_res, _) = eval(&vsrc);
+        if v_res != res {
+            out.push_str(&format!("|via={}", v_res));
+        }
+    }
+    // `(A op1 B) op2 C` must be `V op2 C` where V is the value of `A op1 B`
+    if let Some(ops) = op.strip_prefix("nest:") {
+        let (o1, o2) = ops.split_once(',').expect("nest needs two operators");
+        let inner = format!("{} {} {}", srcs[0], op_src(o1), srcs[1]);
+        let step = guarded(|| {
+            let v = env.compile_expression(&inner)?.eval(&ctx)?;
+            let ctx2 = context! { a => val(0), b => val(1), c => val(2), v => v };
+            let outv = env.compile_expression(&format!("v {} {}", op_src(o2), srcs[2]))?.eval(ctx2)?;
+            Ok::<String, minijinja::Error>(canon(&outv))
+        });
+        let stepwise = match step {
+            Ok(Ok(c)) => c,
+            Ok(Err(e)) => format!("err:{}", error_kind_name(&e)),
+            Err(_) => "panic".to_string(),
+        };
+        if stepwise != res {
+            out.push_str(&format!("|stepwise={}", stepwise));
         }
     }
     // a share of the cases also through another feature / entry point
@@ -864,7 +918,7 @@ fn generate(tier: &str) -> Vec<String> {
     }
 
     // 3. random pairs (boundary biased, half of them targeted at an overflow edge)
-    let n_pairs = if thorough { 75000 } else { 9000 };
+    let n_pairs = if thorough { 180000 } else { 9000 };
     for i in 0..n_pairs {
         let a = rand_int(&mut rng);
         for op in BIN {
@@ -1401,6 +1455,385 @@ fn generate(tier: &str) -> Vec<String> {
         }
     }
 
+    // 12. the representation box: a core of special values in EVERY pair of forms, for every binary
+    //     operator, every comparison, unary minus, the filters and the tests (a defect that sits in
+    //     one arm of a `match` on the two representations needs exactly that pair)
+    let core: Vec<Z> = {
+        let mut v = vec![Z::pos(0), Z::pos(1), Z::new(true, 1), Z::pos(2), Z::new(true, 2), Z::pos(3), Z::new(true, 3), Z::pos(7)];
+        for m in [(1u128 << 63) - 1, 1 << 63, (1 << 63) + 1, (1 << 64) - 1, 1 << 64, P127 - 1, P127, P127 + 1, u128::MAX] {
+            v.push(Z::pos(m));
+            if m <= P127 {
+                v.push(Z::new(true, m));
+            }
+        }
+        v
+    };
+    let wide_forms = |z: &Z| -> Vec<String> {
+        // the five basic forms plus the serde-passed twins of the variable forms
+        let mut v: Vec<String> = Vec::new();
+        for f in z.forms() {
+            v.push(format!("{}:{}", f, z.text()));
+            if f != "lit" {
+                v.push(format!("s{}:{}", f, z.text()));
+            }
+        }
+        v
+    };
+    for a in &core {
+        for ta in wide_forms(a) {
+            cases.push(format!("neg {}", ta));
+            for op in ["f_abs", "f_int", "f_float", "f_round", "t_odd", "t_even"] {
+                cases.push(format!("{} {}", op, ta));
+            }
+        }
+        for b in &core {
+            for fa in a.forms() {
+                for fb in b.forms() {
+                    let (ta, tb) = (format!("{}:{}", fa, a.text()), format!("{}:{}", fb, b.text()));
+                    // serde twins for a share of the variable forms
+                    let ta = if fa != "lit" && rng.chance(1, 4) { format!("s{}", ta) } else { ta };
+                    let tb = if fb != "lit" && rng.chance(1, 4) { format!("s{}", tb) } else { tb };
+                    for op in BIN {
+                        cases.push(format!("{} {} {}", op, ta, tb));
+                    }
+                    for op in CMP {
+                        cases.push(format!("{} {} {}", op, ta, tb));
+                    }
+                    cases.push(format!("div {} {}", ta, tb));
+                    cases.push(format!("f_sum {} {}", ta, tb));
+                    cases.push(format!("t_divby {} {}", ta, tb));
+                    cases.push(format!("{} {} {}", if rng.chance(1, 2) { "f_min" } else { "f_max" }, ta, tb));
+                }
+            }
+        }
+    }
+
+    // 13. `**` completely: every small base with every exponent up to 130, the overflow edge of every
+    //     exponent (base = floor(2^(127/k)) and neighbours), exponents around 2^31 / 2^32 / 2^63 /
+    //     2^64 / 2^127 and exponents whose low 32 bits are small, in rotating forms
+    let mut pow_pairs: Vec<(Z, Z)> = Vec::new();
+    for base in -17i128..=17 {
+        for e in 0u128..=130 {
+            pow_pairs.push((Z::new(base < 0, base.unsigned_abs()), Z::pos(e)));
+        }
+    }
+    for k in 1u32..=130 {
+        // largest base whose k-th power fits below 2^127, by bisection on u128 with checked_pow
+        let (mut lo, mut hi) = (1u128, 1u128 << 64);
+        if k == 1 { lo = P127 - 1; hi = P127; }
+        while lo + 1 < hi {
+            let mid = lo + (hi - lo) / 2;
+            match mid.checked_pow(k) { Some(v) if v < P127 => lo = mid, _ => hi = mid }
+        }
+        for d in 0u128..3 {
+            for neg in [false, true] {
+                for e in [k.saturating_sub(1), k, k + 1] {
+                    pow_pairs.push((Z::new(neg, lo + d), Z::pos(e as u128)));
+                    pow_pairs.push((Z::new(neg, lo.saturating_sub(d)), Z::pos(e as u128)));
+                }
+            }
+        }
+    }
+    let big_exps: Vec<u128> = {
+        let mut v = Vec::new();
+        for c in [1u128 << 31, 1 << 32, 1 << 33, 1 << 63, 1 << 64, 1 << 96, P127] {
+            for d in 0..4u128 {
+                v.push(c + d);
+                v.push(c - 1 - d);
+            }
+            // low 32 bits small
+            if c >= 1 << 32 {
+                for low in [0u128, 1, 2, 3, 5, 10, 64, 127] {
+                    v.push(c + low);
+                    if let Some(c3) = c.checked_mul(3) { v.push(c3 + low); }
+                }
+            }
+        }
+        v.push(u128::MAX);
+        v.push(u128::MAX - 1);
+        v
+    };
+    for &e in &big_exps {
+        for base in [0i128, 1, -1, 2, -2, 3, 10, -10, i64::MAX as i128, i128::MAX, i128::MIN] {
+            pow_pairs.push((Z::new(base < 0, base.unsigned_abs()), Z::pos(e)));
+        }
+    }
+    for e in 1u128..=4 {
+        // negative exponents: an error unless the engine defines it; never a wrong integer
+        for base in [0i128, 1, -1, 2, -2, 7] {
+            pow_pairs.push((Z::new(base < 0, base.unsigned_abs()), Z::new(true, e)));
+        }
+    }
+    for (i, (b, e)) in pow_pairs.iter().enumerate() {
+        let reps = if thorough { 3 } else { 1 };
+        for j in 0..reps {
+            let fb = b.forms();
+            let fe = e.forms();
+            // rotate through the forms so that every (base form, exponent form) pair occurs often
+            let tb = format!("{}:{}", fb[(i + j) % fb.len()], b.text());
+            let te = format!("{}:{}", fe[(i / 5 + 2 * j) % fe.len()], e.text());
+            cases.push(format!("pow {} {}", tb, te));
+        }
+    }
+
+    // 14. `Bool` operands of every operator, filter and test
+    for p in ["bool:0", "bool:1"] {
+        cases.push(format!("neg {}", p));
+        for op in ["f_abs", "f_int", "f_float", "f_round", "t_odd", "t_even"] {
+            cases.push(format!("{} {}", op, p));
+        }
+        for q in ["bool:0", "bool:1"] {
+            for op in BIN.iter().chain(CMP.iter()).chain(["div", "f_sum", "t_divby", "f_min", "f_max"].iter()) {
+                cases.push(format!("{} {} {}", op, p, q));
+            }
+        }
+        let mut others: Vec<String> = Vec::new();
+        for z in &core {
+            others.extend(wide_forms(z));
+        }
+        for f in &zf {
+            others.push(format!("f64:{:016x}", f.to_bits()));
+        }
+        for _ in 0..(if thorough { 400 } else { 60 }) {
+            let z = rand_int(&mut rng);
+            others.push(int_tok(&mut rng, z, None));
+        }
+        for o in &others {
+            for op in BIN.iter().chain(CMP.iter()).chain(["div", "t_divby"].iter()) {
+                if rng.chance(1, 2) {
+                    cases.push(format!("{} {} {}", op, p, o));
+                } else {
+                    cases.push(format!("{} {} {}", op, o, p));
+                }
+            }
+        }
+    }
+
+    // 15. float arithmetic: + - * / ** with float/float, int/float and float/int operands (exactly
+    //     rounded results; overflow to infinity, subnormals, ties, cancellation, signed zeros)
+    let mut fl_pairs: Vec<(f64, f64)> = Vec::new();
+    for a in &zf {
+        for b in &zf {
+            fl_pairs.push((*a, *b));
+        }
+    }
+    let ulp_up = |x: f64, k: u64| f64::from_bits(x.to_bits().wrapping_add(k));
+    for _ in 0..(if thorough { 120000 } else { 4000 }) {
+        let a = rand_float(&mut rng);
+        let b = match rng.below(8) {
+            0 => -a,
+            1 => ulp_up(-a, 1 + rng.below(3)),
+            2 => a * (2.0f64).powi(-53 + rng.below(4) as i32 - 2),           // half-ulp neighbourhood: ties
+            3 => ulp_up(a * (2.0f64).powi(-53), rng.below(3)),
+            4 => f64::MAX / a,                                                   // product / quotient at the overflow edge
+            5 => f64::MIN_POSITIVE / a * (1.0 + rng.below(8) as f64 / 8.0),     // at the underflow edge
+            6 => (rng.below(41) as f64 - 20.0) / *rng.pick(&[1.0, 2.0, 3.0, 10.0]),
+            _ => rand_float(&mut rng),
+        };
+        if b.is_finite() {
+            fl_pairs.push((a, b));
+        }
+    }
+    let n_zoo_pairs = zf.len() * zf.len();
+    for (i, (a, b)) in fl_pairs.iter().enumerate() {
+        let (ta, tb) = (float_tok(&mut rng, *a), float_tok(&mut rng, *b));
+        for op in ["add", "sub", "mul", "div"] {
+            cases.push(format!("{} {} {}", op, ta, tb));
+        }
+        if i >= n_zoo_pairs {
+            // the aimed pairs also through // and % (the zoo pairs went through them in stream 5)
+            for op in ["fdiv", "rem"] {
+                cases.push(format!("{} {} {}", op, ta, tb));
+            }
+        }
+    }
+    //     // and % where `a - a % b` or the quotient leaves the range: dividends next to +-MAX, huge divisors
+    for _ in 0..(if thorough { 3000 } else { 400 }) {
+        let a = f64::from_bits(f64::MAX.to_bits() - rng.below(1 << 20)) * if rng.chance(1, 2) { -1.0 } else { 1.0 };
+        let b = f64::from_bits(((1023 + 960 + rng.below(64)) << 52) | (rng.next() & ((1 << 52) - 1))) * if rng.chance(1, 3) { -1.0 } else { 1.0 };
+        let small = (2.0f64).powi(-(rng.below(1070) as i32)) * (1.0 + rng.below(8) as f64 / 8.0);
+        for (x, y) in [(a, b), (a, small), (small, b), (a, -a / (2.0 + rng.below(5) as f64))] {
+            if x.is_finite() && y.is_finite() {
+                let (tx, ty) = (float_tok(&mut rng, x), float_tok(&mut rng, y));
+                for op in ["fdiv", "rem"] {
+                    cases.push(format!("{} {} {}", op, tx, ty));
+                }
+            }
+        }
+    }
+    for _ in 0..(if thorough { 30000 } else { 3000 }) {
+        let z = if rng.chance(1, 2) { *rng.pick(&zi) } else { rand_int(&mut rng) };
+        let f = if rng.chance(1, 2) { *rng.pick(&zf) } else { rand_float(&mut rng) };
+        let (ti, tf) = (int_tok(&mut rng, z, None), float_tok(&mut rng, f));
+        let op = *rng.pick(&["add", "sub", "mul", "div"]);
+        if rng.chance(1, 2) {
+            cases.push(format!("{} {} {}", op, ti, tf));
+        } else {
+            cases.push(format!("{} {} {}", op, tf, ti));
+        }
+        // true division of two integers
+        let w = if rng.chance(1, 2) { *rng.pick(&zi) } else { rand_int(&mut rng) };
+        let tw = int_tok(&mut rng, w, None);
+        let ti = int_tok(&mut rng, z, None);
+        cases.push(format!("div {} {}", ti, tw));
+    }
+    //     float `**`: every class of base against every class of exponent (NaN, +-inf, +-0, +-1,
+    //     magnitudes below / above 1, odd / even / fractional exponents of both signs), small integral
+    //     powers, random pairs
+    let pow_bases: Vec<f64> = vec![
+        f64::NAN, f64::NEG_INFINITY, -1e300, -7.5, -3.0, -2.0, -1.0000000000000002, -1.0, -0.9999999999999999, -0.5, -1e-300, -5e-324, -0.0,
+        0.0, 5e-324, 1e-300, 0.5, 0.9999999999999999, 1.0, 1.0000000000000002, 2.0, 3.0, 7.5, 10.0, 1e300, f64::MAX, f64::INFINITY,
+    ];
+    let pow_exps: Vec<f64> = vec![
+        f64::NAN, f64::NEG_INFINITY, -1e300, -9007199254740993.0, -9007199254740992.0, -1075.0, -1074.0, -5.0, -4.0, -3.0, -2.5, -2.0, -1.0, -0.5, -5e-324, -0.0,
+        0.0, 5e-324, 0.5, 1.0, 1.5, 2.0, 3.0, 4.0, 5.0, 63.0, 64.0, 1023.0, 1024.0, 4294967296.0, 4294967297.0, 9007199254740991.0, 9007199254740992.0, 1e300, f64::INFINITY,
+    ];
+    for x in &pow_bases {
+        for y in &pow_exps {
+            cases.push(format!("pow f64:{:016x} f64:{:016x}", x.to_bits(), y.to_bits()));
+        }
+    }
+    for _ in 0..(if thorough { 20000 } else { 2000 }) {
+        let x = match rng.below(4) {
+            0 => (rng.below(41) as f64 - 20.0) / *rng.pick(&[1.0, 2.0, 4.0]),
+            1 => *rng.pick(&pow_bases),
+            _ => rand_float(&mut rng),
+        };
+        let y = match rng.below(4) {
+            0 => rng.below(70) as f64 - 20.0,
+            1 => *rng.pick(&pow_exps),
+            2 => (rng.below(81) as f64 - 40.0) / 8.0,
+            _ => rand_float(&mut rng),
+        };
+        let tx = if x.is_finite() && rng.chance(1, 2) { float_tok(&mut rng, x) } else { format!("f64:{:016x}", x.to_bits()) };
+        let ty = if y.is_finite() && rng.chance(1, 2) { float_tok(&mut rng, y) } else { format!("f64:{:016x}", y.to_bits()) };
+        let tx = if tx.starts_with("flit:") && x.is_sign_negative() { format!("f64:{:016x}", x.to_bits()) } else { tx };
+        match rng.below(4) {
+            0 if x.is_finite() && x.fract() == 0.0 && x.abs() < 1e15 => {
+                let z = Z::new(x < 0.0, x.abs() as u128);
+                cases.push(format!("pow {} {}", int_tok(&mut rng, z, None).replace("lit:-", "i128:-"), ty));
+            }
+            1 if y.is_finite() && y.fract() == 0.0 && y.abs() < 1e15 => {
+                let z = Z::new(y < 0.0, y.abs() as u128);
+                cases.push(format!("pow {} {}", tx, int_tok(&mut rng, z, None)));
+            }
+            _ => cases.push(format!("pow {} {}", tx, ty)),
+        }
+    }
+
+    // 16. round(precision) on floats, the tests on floats
+    let mut rp_floats: Vec<f64> = vec![0.5, 1.5, 2.5, -0.5, -1.5, 0.05, 0.15, 0.25, 0.35, 1.005, 2.675, 1e15 + 0.5, 123456.789, -123456.789, 5e-324, 1e300, 0.0, -0.0, 4503599627370495.5, 0.49999999999999994];
+    for _ in 0..(if thorough { 6000 } else { 600 }) {
+        rp_floats.push(rand_float(&mut rng));
+        rp_floats.push((rng.below(200001) as f64 - 100000.0) / *rng.pick(&[8.0, 10.0, 100.0, 1000.0, 16.0, 3.0]));
+    }
+    for f in &rp_floats {
+        for p in [-3i32, -2, -1, 0, 1, 2, 3, 5, 10, 22] {
+            if rng.chance(1, 3) || rp_floats.len() < 30 {
+                let tp = if p < 0 { format!("i64:{}", p) } else { format!("lit:{}", p) };
+                cases.push(format!("f_roundp f64:{:016x} {}", f.to_bits(), tp));
+            }
+        }
+        let tf = format!("f64:{:016x}", f.to_bits());
+        cases.push(format!("t_odd {}", tf));
+        cases.push(format!("t_even {}", tf));
+        let d = *rng.pick(&zf);
+        cases.push(format!("t_divby {} f64:{:016x}", tf, d.to_bits()));
+        let z = *rng.pick(&zi);
+        cases.push(format!("t_divby {} {}", tf, int_tok(&mut rng, z, None)));
+        cases.push(format!("t_divby {} {}", int_tok(&mut rng, z, None), tf));
+    }
+    for f in &zf {
+        let tf = format!("f64:{:016x}", f.to_bits());
+        cases.push(format!("t_odd {}", tf));
+        cases.push(format!("t_even {}", tf));
+        for g in &zf {
+            cases.push(format!("t_divby {} f64:{:016x}", tf, g.to_bits()));
+        }
+    }
+
+    // 17. strings parsed by `int` / `float`: sign x leading zeros x the integers around every
+    //     boundary (incl. the ones whose float approximation lands back inside the range), blanks,
+    //     separators, radix prefixes, exponents, the words inf / nan, long digit strings
+    let mut texts: Vec<String> = Vec::new();
+    let mut edge: Vec<Z> = Vec::new();
+    for c in [0u128, 1 << 53, 1 << 63, 1 << 64, P127] {
+        for d in 0..3u128 {
+            edge.push(Z::pos(c + d));
+            edge.push(Z::new(true, c + d));
+            if c > d {
+                edge.push(Z::pos(c - d));
+                edge.push(Z::new(true, c - d));
+            }
+        }
+    }
+    for d in [1u128 << 73, (1 << 74) - 1, 1 << 74, (1 << 74) + 1, 1 << 75, 1 << 76] {
+        edge.push(Z::new(true, P127 + d));
+        edge.push(Z::pos(P127 + d));
+        edge.push(Z::pos(P127 - d));
+    }
+    edge.push(Z::pos(u128::MAX));
+    for z in &edge {
+        let digits = format!("{}", z.mag);
+        for zeros in ["", "0", "000"] {
+            let body = format!("{}{}", zeros, digits);
+            if z.neg {
+                texts.push(format!("-{}", body));
+            } else {
+                texts.push(body.clone());
+                texts.push(format!("+{}", body));
+            }
+        }
+        let t = z.text();
+        for deco in [format!(" {}", t), format!("{} ", t), format!("{}\n", t), format!("\t{}", t), format!("{}_", t), format!("{}.0", t), format!("{}.", t), format!("{}e0", t), format!("{}E+0", t), format!("{}.9", t), format!("{}0e-1", t), format!("{}x", t), format!("0x{}", digits), format!("{}L", t), format!("--{}", digits), format!("+-{}", digits), format!("-+{}", digits)] {
+            texts.push(deco);
+        }
+        if digits.len() > 2 {
+            texts.push(format!("{}_{}", &digits[..1], &digits[1..]));
+            texts.push(format!("{},{}", &digits[..1], &digits[1..]));
+        }
+    }
+    for w in ["inf", "Inf", "INF", "infinity", "Infinity", "iNfInItY", "nan", "NaN", "NAN", "infinit", "in", "na", "nan0", "inf ", "i", "n", "+", "-", "+.", "-.", ".", "e", ".e1", "1.e1", ".1e1", "1e+", "1e-", "1e+-1", "1e1.5", "1..", "1.2.3", "0e0", "-0e0", "0e999999999999999999999", "1e999999999999999999999", "1e-999999999999999999999", "0.000000000000000000000000000000000001e36", "1e308", "1.7976931348623157e308", "1.7976931348623158e308", "1.7976931348623159e308", "2e308", "4.9406564584124654e-324", "2.4703282292062327e-324", "2.4703282292062328e-324", "2.5e-324", "1e-323", "2.2250738585072011e-308", "9007199254740993", "9007199254740992.5", "9007199254740993.0000000000000000000000001", "0.1", "0.3", "123456789012345678901234567890123456789012345678901234567890", "0.00000000000000000000000000000000000000000000000000000000000000000000001", "1e22", "1e23", "8.5", "१२"] {
+        for sign in ["", "+", "-"] {
+            texts.push(format!("{}{}", sign, w));
+        }
+    }
+    let alpha: Vec<char> = "0123456789+-._eE xX ".chars().collect();
+    for _ in 0..(if thorough { 60000 } else { 2500 }) {
+        let len = 1 + rng.below(10);
+        let t: String = (0..len).map(|_| *rng.pick(&alpha)).collect();
+        texts.push(t);
+        // decimal texts of random floats with many digits
+        let f = rand_float(&mut rng);
+        if rng.chance(1, 3) {
+            texts.push(format!("{:.*e}", 17 + rng.below(20) as usize, f));
+        }
+    }
+    for t in &texts {
+        cases.push(format!("f_strint {}", str_tok(t)));
+        cases.push(format!("f_strfloat {}", str_tok(t)));
+    }
+
+    // 18. nested operators: `(A op1 B) op2 C` against the stepwise evaluation (constant folding of
+    //     nested constants, partial folding, operand order on the stack)
+    const ARITH: [&str; 7] = ["add", "sub", "mul", "fdiv", "rem", "pow", "div"];
+    for _ in 0..(if thorough { 100000 } else { 5000 }) {
+        let tok = |rng: &mut Rng| -> String {
+            match rng.below(6) {
+                0 => { let f = if rng.chance(1, 2) { *rng.pick(&zf) } else { rand_float(rng) }; float_tok(rng, f) }
+                1 => format!("bool:{}", rng.below(2)),
+                2 => { let z = *rng.pick(&core); int_tok(rng, z, None) }
+                3 => { let z = Z::new(rng.chance(1, 2), rng.below(40) as u128); int_tok(rng, z, None) }
+                _ => { let z = if rng.chance(1, 2) { *rng.pick(&zi) } else { rand_int(rng) }; int_tok(rng, z, None) }
+            }
+        };
+        let (a, b, c) = (tok(&mut rng), tok(&mut rng), tok(&mut rng));
+        let o1 = *rng.pick(&ARITH);
+        let o2 = if rng.chance(1, 4) { *rng.pick(&CMP) } else { *rng.pick(&ARITH) };
+        // all-literal, all-variable and mixed (partially foldable) forms all occur through the token choice
+        cases.push(format!("nest:{},{} {} {} {}", o1, o2, a, b, c));
+    }
+
     // distinct, generation order kept
     let mut seen = HashSet::new();
     cases.retain(|c| seen.insert(c.clone()));
@@ -1422,6 +1855,12 @@ fn main() {
                 writeln!(out, "{}\t{}", case, res).unwrap();
             }
         }
+        Some("cases") => {
+            let tier = args.get(2).map(|s| s.as_str()).unwrap_or("quick");
+            for case in generate(tier) {
+                writeln!(out, "{}", case).unwrap();
+            }
+        }
         Some("one") => {
             let fields: Vec<&str> = args[2..].iter().flat_map(|s| s.split(' ')).filter(|s| !s.is_empty()).collect();
             let res = run_case(&env, &fields);
@@ -1441,7 +1880,7 @@ fn main() {
             }
         }
         _ => {
-            eprintln!("usage: c08 gen <quick|thorough> | one <op> <A> [<B>] | run");
+            eprintln!("usage: c08 gen <quick|thorough> | cases <quick|thorough> | one <op> <A> [<B>] | run");
             std::process::exit(2);
         }
     }
